@@ -11,9 +11,10 @@ INSTANCE Env
 Traces == JsonDeserialize(IOEnv.VERIF_TRACES)
 VARIABLES tid, l
 tvars == <<env, op, tq, fmt, val, part, tid, l>>
-\* env = current specification; fmt / val = <<array>> the instance computed at the first EnvGen / IEnvGen
-\* request (what a never refreshed copy would hold); part = <<specification at that first EnvGen request>>
+\* env = current specification of instance 1; part = <<specification of instance 2>> once it has been derived
 CtlSeq(e) == [i \in 1..5 |-> Fix(e.ctl[i])]
+Cur(e) == IF e.i = 1 THEN env ELSE part[1]
+Has(e) == e.i = 1 \/ part # <<>>
 
 DiffE(exp, obs) ==
     IF Len(exp) # Len(obs) THEN "length"
@@ -31,52 +32,54 @@ DiffI(exp, obs) ==
               CASE j = 1 -> "offset" [] j = 2 -> "initial-level" [] j = 3 -> "segment-count" [] j = 4 -> "total-duration"
                 [] j > 4 /\ (j - 5) % 4 = 0 -> "duration" [] j > 4 /\ (j - 5) % 4 = 1 -> "shape-number"
                 [] j > 4 /\ (j - 5) % 4 = 2 -> "curvature" [] OTHER -> "target-level"
-\* observed EnvGen array against the current specification (pre: prefix of controls, possibly empty)
-WhyE(tag, pre, r) ==
-    IF ~ValidCurves(env) THEN (IF r.k = "exc" THEN "ok" ELSE tag \o ":accepted-invalid")
+\* which instance the answer belongs to instead, if any (an instance must never answer for the other one)
+Other(e) == IF e.i = 1 THEN (IF part # <<>> THEN part ELSE <<>>) ELSE <<env>>
+WhyE(tag, pre, r, s, e) ==
+    IF ~ValidCurves(s) THEN (IF r.k = "exc" THEN "ok" ELSE tag \o ":accepted-invalid")
     ELSE IF r.k # "ok" THEN tag \o ":raised"
     ELSE IF Len(r.v) < Len(pre) \/ SubSeq(r.v, 1, Len(pre)) # pre THEN tag \o ":controls"
     ELSE LET obs == SubSeq(r.v, Len(pre) + 1, Len(r.v))
-             d == DiffE(FormatSeq(env), obs) IN
-         IF d = "ok" THEN "ok"
-         ELSE IF fmt # <<>> /\ obs = fmt[1] THEN tag \o ":stale-cache"
-         ELSE tag \o ":" \o d
-WhyI(tag, pre, r) ==
-    IF ~ValidCurves(env) THEN (IF r.k = "exc" THEN "ok" ELSE tag \o ":accepted-invalid")
+             d == DiffE(FormatSeq(s), obs) IN
+         IF d = "ok" THEN "ok" ELSE tag \o ":" \o d
+WhyI(tag, pre, r, s, e) ==
+    IF ~ValidCurves(s) THEN (IF r.k = "exc" THEN "ok" ELSE tag \o ":accepted-invalid")
     ELSE IF r.k # "ok" THEN tag \o ":raised"
     ELSE IF Len(r.v) < Len(pre) \/ SubSeq(r.v, 1, Len(pre)) # pre THEN tag \o ":index"
     ELSE LET obs == SubSeq(r.v, Len(pre) + 1, Len(r.v))
-             d == DiffI(InterpSeq(env), obs) IN
-         IF d = "ok" THEN "ok"
-         ELSE IF val # <<>> /\ obs = val[1] THEN tag \o ":stale-cache"
-         ELSE tag \o ":" \o d
+             d == DiffI(InterpSeq(s), obs) IN
+         IF d = "ok" THEN "ok" ELSE tag \o ":" \o d
 Both(a, b) == IF a # "ok" THEN a ELSE b
+Setters == {"set_levels", "set_times", "set_curves", "set_release_node", "set_loop_node", "set_offset", "set_duration"}
 Why(e) ==
-    CASE e.n = "fmt" -> WhyE("fmt", <<>>, e.r)
-      [] e.n = "ifmt" -> WhyI("ifmt", <<>>, e.r)
-      [] e.n = "ugenE" -> WhyE("ugenE", CtlSeq(e), e.r)
-      [] e.n = "ugenI" -> WhyI("ugenI", <<Fix(e.ix)>>, e.r)
-      [] e.n \in {"ugenEI", "ugenIE"} -> Both(WhyE(e.n \o ":envgen", CtlSeq(e), e.r), WhyI(e.n \o ":ienvgen", <<Fix(e.ix)>>, e.r2))
+    IF ~Has(e) THEN "no-such-instance"
+    ELSE LET s == Cur(e) IN
+    CASE e.n = "fmt" -> WhyE("fmt", <<>>, e.r, s, e)
+      [] e.n = "ifmt" -> WhyI("ifmt", <<>>, e.r, s, e)
+      [] e.n = "ugenE" -> WhyE("ugenE", CtlSeq(e), e.r, s, e)
+      [] e.n = "ugenI" -> WhyI("ugenI", <<Fix(e.ix)>>, e.r, s, e)
+      [] e.n \in {"ugenEI", "ugenIE"} -> Both(WhyE(e.n \o ":envgen", CtlSeq(e), e.r, s, e), WhyI(e.n \o ":ienvgen", <<Fix(e.ix)>>, e.r2, s, e))
       [] e.n = "at" ->
-            IF ~ValidCurves(env) THEN (IF e.r.k = "exc" THEN "ok" ELSE "at:accepted-invalid")
+            IF ~ValidCurves(s) THEN (IF e.r.k = "exc" THEN "ok" ELSE "at:accepted-invalid")
             ELSE IF e.r.k # "ok" THEN "at:raised"
-            ELSE LET w == AtWhy(env, e.t, e.r.v[1]) IN
-                 IF w = "ok" THEN "ok"
-                 ELSE IF part # <<>> /\ AtWhy([part[1] EXCEPT !.off = env.off], e.t, e.r.v[1]) = "ok" THEN "at:stale-cache"
-                 ELSE "at:" \o w
-      [] e.n \in {"set_levels", "set_times", "set_curves", "set_release_node", "set_loop_node", "set_offset"} ->
-            (IF e.r.k = "ok" THEN "ok" ELSE "set:raised")
+            ELSE LET w == AtWhy(s, e.t, e.r.v[1]) IN IF w = "ok" THEN "ok" ELSE "at:" \o w
+      [] e.n = "dur" -> (IF e.r.k # "ok" THEN "dur:raised" ELSE IF e.r.v # <<Fix(Duration(s))>> THEN "dur:value" ELSE "ok")
+      [] e.n = "derive" -> (IF ~Derivable(s, e.kind) THEN "derive:case-not-defined" ELSE IF e.r.k = "ok" THEN "ok" ELSE "derive:raised")
+      [] e.n \in Setters -> (IF e.r.k = "ok" THEN "ok" ELSE "set:raised")
       [] OTHER -> "unknown-event"
-NextSpec(e) ==
-    CASE e.n = "set_levels" -> [env EXCEPT !.lv = e.lv]
-      [] e.n = "set_times" -> [env EXCEPT !.tm = e.tm]
-      [] e.n = "set_curves" -> [env EXCEPT !.cv = e.cv]
-      [] e.n = "set_release_node" -> [env EXCEPT !.rel = e.node]
-      [] e.n = "set_loop_node" -> [env EXCEPT !.loop = e.node]
-      [] e.n = "set_offset" -> [env EXCEPT !.off = e.off]
-      [] OTHER -> env
-AsksE(e) == e.n \in {"fmt", "at", "ugenE", "ugenEI", "ugenIE"}
-AsksI(e) == e.n \in {"ifmt", "ugenI", "ugenEI", "ugenIE"}
+Changed(e, s) ==
+    CASE e.n = "set_levels" -> [s EXCEPT !.lv = e.lv]
+      [] e.n = "set_times" -> [s EXCEPT !.tm = e.tm]
+      [] e.n = "set_curves" -> [s EXCEPT !.cv = e.cv]
+      [] e.n = "set_release_node" -> [s EXCEPT !.rel = e.node]
+      [] e.n = "set_loop_node" -> [s EXCEPT !.loop = e.node]
+      [] e.n = "set_offset" -> [s EXCEPT !.off = e.off]
+      [] e.n = "set_duration" -> Rescaled(s, e.d)
+      [] OTHER -> s
+\* an operation on instance i changes the specification of i only; derive makes the other instance
+Next1(e) == IF e.n = "derive" THEN (IF e.i = 2 THEN Derived(part[1], e.kind, e.lo, e.hi) ELSE env)
+            ELSE IF e.i = 1 THEN Changed(e, env) ELSE env
+Next2(e) == IF e.n = "derive" THEN (IF e.i = 1 THEN <<Derived(env, e.kind, e.lo, e.hi)>> ELSE part)
+            ELSE IF e.i = 2 THEN <<Changed(e, part[1])>> ELSE part
 
 TInit == /\ tid \in 1..Len(Traces) /\ l = 1
          /\ env = LET i == Traces[tid].init IN MkEnv(i.lv, i.tm, i.cv, i.rel, i.loop, i.off)
@@ -86,11 +89,8 @@ Step1 == /\ l >= 1 /\ l <= Len(Traces[tid].ev)
                 e == t.ev[l]
                 why == Why(e) IN
             IF why = "ok"
-            THEN /\ l' = l + 1 /\ env' = NextSpec(e)
-                 /\ fmt' = (IF fmt = <<>> /\ AsksE(e) /\ ValidCurves(env) THEN <<FormatSeq(env)>> ELSE fmt)
-                 /\ part' = (IF fmt = <<>> /\ AsksE(e) /\ ValidCurves(env) THEN <<env>> ELSE part)
-                 /\ val' = (IF val = <<>> /\ AsksI(e) /\ ValidCurves(env) THEN <<InterpSeq(env)>> ELSE val)
-                 /\ UNCHANGED <<op, tq, tid>>
+            THEN /\ l' = l + 1 /\ env' = Next1(e) /\ part' = Next2(e)
+                 /\ UNCHANGED <<op, tq, fmt, val, tid>>
             ELSE /\ PrintT(<<"REJ", t.id, l, why>>)
                  /\ l' = 0 /\ UNCHANGED <<env, op, tq, fmt, val, part, tid>>
 Done == /\ l = Len(Traces[tid].ev) + 1
